@@ -24,7 +24,13 @@ pub fn o_metadata(input: &[u8], p: &P) -> Out {
 			Some(body) => Some(ubj::dec_entries(body, 0).map_err(|m| e("model", m))?.0),
 			None => None,
 		};
-		let g = read_slp(input, true, false).map_err(|f| e(&format!("read-failed:{}", f.key()), format!("reading failed: {}", f.describe())))?;
+		let g = match read_slp(input, true, false) {
+			Ok(g) => g,
+			// beyond the library's nesting bound (needed so that hostile nesting cannot overflow the stack)
+			// a refusal is accepted; whatever IS accepted must make the whole trip
+			Err(Fail::Err(m)) if p.class == "deep-chain" && m.contains("nested too deeply") => return Ok(3),
+			Err(f) => return Err(e(&format!("read-failed:{}", f.key()), format!("reading failed: {}", f.describe()))),
+		};
 		let got = match &g.metadata {
 			Some(m) => Some(ubj::from_json(m).map_err(|m| e("value-kind", m))?),
 			None => None,
@@ -135,9 +141,9 @@ pub fn run() {
 	let s255: String = "ü".repeat(127) + "x"; // 255 bytes of UTF-8
 	let k255: String = "k".repeat(255);
 	let marker = "U S l { } \u{0} [".to_string();
-	cx.note("rule", json!("all trees of a bounded grammar, every key ORDER included (ordered selections of distinct keys): level-1 maps with <=3 entries over keys {\"\", a, é, lastFrame, 255-byte key} (quick: 3 keys) and 12 leaf values (strings \"\", x, 255 bytes of 2-byte UTF-8, text made of the marker bytes U S l { } NUL; ints 0, 1, -1, 127, 128, 65536, i32::MIN, i32::MAX); nested trees to depth 3 with <=2 entries per map; chains of depth 1..100; widths up to 40 entries; no metadata; empty metadata. Encoded by the harness's own UBJSON writer, embedded in a minimal replay. Oracle: Game.metadata == the tree with the same key order, write reproduces the input bytes, metadata.json inside the .slpp (own tar reader, order-preserving tokenizer) has the same keys in the same order and the same values, peppi::read gives the same tree; absent metadata => None / null. Every case is non-trivial (distinct tree)"));
+	cx.note("rule", json!("all trees of a bounded grammar, every key ORDER included (ordered selections of distinct keys): level-1 maps with <=3 entries over keys {\"\", a, é, lastFrame, 255-byte key} (quick: 3 keys) and 12 leaf values (strings \"\", x, 255 bytes of 2-byte UTF-8, text made of the marker bytes U S l { } NUL; ints 0, 1, -1, 127, 128, 65536, i32::MIN, i32::MAX); nested trees to depth 3 with <=2 entries per map; chains of depth 1..140 (beyond depth 100 the reader may refuse; whatever it accepts must make the whole trip); widths up to 40 entries; no metadata; empty metadata. Encoded by the harness's own UBJSON writer, embedded in a minimal replay. Oracle: Game.metadata == the tree with the same key order, write reproduces the input bytes, metadata.json inside the .slpp (own tar reader, order-preserving tokenizer) has the same keys in the same order and the same values, peppi::read gives the same tree; absent metadata => None / null. Every case is non-trivial (distinct tree)"));
 	cx.note("exhaustive", json!(true));
-	cx.note("assumptions", json!(["map nesting is bounded at 128 by the library (fix 1cec1ba); chains are enumerated up to 100", "trees larger than the grammar (more entries per map, deeper nesting with wide maps) are not enumerated"]));
+	cx.note("assumptions", json!(["map nesting is bounded by the library (fix 1cec1ba) so that hostile nesting cannot overflow the stack; a refusal beyond depth 100 is accepted", "trees larger than the grammar (more entries per map, deeper nesting with wide maps) are not enumerated"]));
 	let quick = cx.quick();
 	let ints = [0, 1, -1, 127, 128, 65_536, i32::MIN, i32::MAX];
 	let mut leaves: Vec<MVal> = vec![MVal::Str("".into()), MVal::Str("x".into()), MVal::Str(s255.clone()), MVal::Str(marker.clone())];
@@ -153,7 +159,7 @@ pub fn run() {
 	];
 	all.extend(trees(&nested, 0).into_iter().map(Some));
 	// chains and widths
-	for d in 1..=100usize {
+	for d in 1..=140usize {
 		let mut m: Meta = vec![("leaf".into(), MVal::Int(d as i32 - 50))];
 		for i in 0..d {
 			m = vec![(format!("d{}", i), MVal::Map(m))];
@@ -167,7 +173,16 @@ pub fn run() {
 	cx.note("trees", json!(all.len()));
 	par_each(all.into_iter().enumerate(), |(n, m), local| {
 		let bytes = Arc::new(file_with_meta(m.as_ref()));
-		let p = P { comp: (n % 3) as u8, class: if m.is_none() { "none" } else { "tree" }, ..Default::default() };
+		let depth = |m: &Meta| -> usize {
+			let mut d = 1;
+			let mut cur = m;
+			while let Some((_, MVal::Map(inner))) = cur.first() {
+				d += 1;
+				cur = inner;
+			}
+			d
+		};
+		let p = P { comp: (n % 3) as u8, class: if m.is_none() { "none" } else if depth(m.as_ref().unwrap()) > 100 { "deep-chain" } else { "tree" }, ..Default::default() };
 		eval_case("metadata", o_metadata, &bytes, &p, || short(&m), local);
 	});
 	finish(cx);
